@@ -15,6 +15,11 @@ from fractions import Fraction
 
 
 def kept_range(sigma, tol, delta=1e-12):
+    """
+    Admissible range of kept counts.  The ambiguity margin of a cumulative weight w_j is  delta * w_j  (floating-point evaluation of the
+    rule itself) plus the effect of an absolute error eta = 8 eps sigma_max on every singular value (what a backward-stable SVD
+    guarantees: small singular values are only accurate relative to the largest one).
+    """
     s = sorted(float(x) for x in sigma)
     K = len(s)
     sq = [Fraction(x) ** 2 for x in s]
@@ -23,16 +28,20 @@ def kept_range(sigma, tol, delta=1e-12):
         return 0, 0, False
     exact = all(x == 1.0 for x in s) and K in (1, 4, 16, 64)
     d = Fraction(0) if exact else Fraction(delta)
+    eta = Fraction(0) if exact else Fraction(8 * 2.220446049250313e-16 * s[-1])
     t = Fraction(float(tol))
     c = Fraction(0)
+    u = Fraction(0)   # accumulated uncertainty of the cumulative sum of squares
     n_hi = 0   # number discardable with generous threshold
     n_lo = 0   # number discardable with strict threshold
-    for x in sq:
+    for x, sx in zip(sq, s):
         c += x
+        u += 2 * Fraction(sx) * eta + eta * eta
         w = c / tot
-        if w <= t + d:
+        m = d * w + u / tot
+        if w - m <= t:
             n_hi += 1
-        if w <= t - d:
+        if w + m <= t:
             n_lo += 1
     return K - n_hi, K - n_lo, exact
 
